@@ -305,3 +305,31 @@ def check(case, obs):
             obs.claim('identities', bool(np.allclose(res['gcv'], np.sqrt(np.exp(np.log(res['gstd']) ** 2) - 1),
                                                      rtol=gt, atol=gt, equal_nan=True)),
                       'GCV != sqrt(exp(ln(GSD)^2)-1)')
+    # the statistics describe the values the container holds *now*: overwrite one requested channel in place (with the
+    # values of its neighbour) and ask again with the same channel list on the same objects
+    if form in ('list', 'list1') and D >= 2 and not case.get('iterator'):
+        j0 = sel[0]
+        j1 = (j0 + 1) % D
+        original = np.asarray(x)[:, j0].copy()
+        refs2 = list(refs)
+        refs2[j0] = refs[j1]
+        cols2 = list(cols)
+        cols2[j0] = cols[j1]
+        obs.label('edited_in_place')
+        rtol = 1e-9 if (ftype == 'f8' or ftype == 'int') else 2e-4
+        # (first the sample: ask, overwrite, ask again; then the plain array: ask, restore the column, ask again)
+        for who, holder, chs, newcol, refs2, cols2 in (('sample', x, ch_arg, np.asarray(x)[:, j1].copy(), refs2, cols2),
+                                                       ('plain array', arr, [int(j) for j in sel], original, refs, cols)):
+            call(FlowCal.stats.mean, holder, chs)
+            x[:, j0] = newcol
+            for stat in ('mean', 'median', 'std', 'iqr'):
+                fn = getattr(FlowCal.stats, stat)
+                got = call(fn, holder, chs)
+                if not obs.claim('definition', not raised(got) and np.shape(got) == (len(sel),),
+                                 lambda: '%s(%s, %r) after an in-place edit: %r' % (stat, who, ch_arg, got)):
+                    continue
+                for i, j in enumerate(sel):
+                    scale = max(abs(float(c)) for c in cols2[j])
+                    obs.claim('definition', _close(float(got[i]), refs2[j][stat], rtol, scale),
+                              lambda: '%s of channel %d (%s) after channel %d was overwritten in place: got %r, definition %r' % (
+                                  stat, j, who, j0, float(got[i]), refs2[j][stat]))
